@@ -223,6 +223,8 @@ def c11(tier):
     F = ['crypto/zz_verif_bdhke.go', 'crypto/zz_verif_derive.go']
     return [Harness('VHarnessHashToCurve', 'crypto', F, bounds='every message (string of any length); counter loop unwound 4 times (messages needing more iterations: outside, probability 2^-4)', must_reach=('done',), unwind=6, salt_retries=True, **kw),
             Harness('VHarnessKeysetId', 'crypto', F, bounds='every set of 1..3 keys with arbitrary distinct 64-bit amounts', must_reach=('done',), **kw),
+            Harness('VHarnessKeysetId4', 'crypto', F, bounds='every set of exactly 4 keys with arbitrary distinct 64-bit amounts (every relative order)', must_reach=('done',), **kw),
+            Harness('VHarnessKeysetId5', 'crypto', F, bounds='every set of exactly 5 keys with arbitrary distinct 64-bit amounts (every relative order)', must_reach=('done',), **kw),
             Harness('VHarnessGenerateKeyset', 'crypto', F, bounds='every 32-byte seed, every derivation index < 2^31; all 60 keys', must_reach=('done',), **kw),
             Harness('VHarnessNut13', 'cashu/nuts/nut13', F + ['cashu/nuts/nut13/zz_verif_nut13.go'], bounds='every 32-byte seed, every 8-byte keyset id (incl. high bits set), every counter < 2^31', must_reach=('done',), **kw),
             Harness('VHarnessDeriveP2PK', 'wallet', F + ['wallet/zz_verif_p2pkkey.go'], bounds='every 32-byte seed', must_reach=('done',), **kw)]
